@@ -100,7 +100,7 @@ def step (_ : Unit) (ws : List String) : Unit × String :=
     | [w, c, h, sl, mm, tl, st], some p =>
       let cpar : CPar := ⟨w, c, h, sl, mm, tl, st⟩
       let stream := kind == "cstream"
-      ((), s!"le={if leB p (rpOfCParams cpar p.useRow stream) then 1 else 0} need={estimate p} pub={estimateUsingCParams cpar stream}")
+      ((), s!"le={if leB p (rpOfCParams cpar p.useRow stream) || leLB p (rpOfCParams cpar p.useRow stream) then 1 else 0} need={estimate p} pub={estimateUsingCParams cpar stream}")
     | _, _ => ((), "bad-op")
   | ["covp", kind, mode, cp, rp] =>
     -- covp <cctx|cstream> <0 auto|1 enable|2 disable> <w,c,h,s,mm,tl,strat> <applied parameters> : hypotheses of usingCCtxParams_covers on this run
@@ -110,7 +110,7 @@ def step (_ : Unit) (ws : List String) : Unit × String :=
       let cpar : CPar := ⟨w, c, h, sl, mm, tl, st⟩
       let stream := kind == "cstream"
       let m : RowMode := if mode == "1" then .enable else if mode == "2" then .disable else .auto
-      ((), s!"le={if leB p (rpOfCCtxParams cpar m p.useRow stream) then 1 else 0} fl={if flavourCovered cpar m stream p.useRow then 1 else 0} need={estimate p} pub={estimateUsingCCtxParams cpar m stream}")
+      ((), s!"le={if leB p (rpOfCCtxParams cpar m p.useRow stream) || leLB p (rpOfCCtxParams cpar m p.useRow stream) then 1 else 0} fl={if flavourCovered cpar m stream p.useRow then 1 else 0} need={estimate p} pub={estimateUsingCCtxParams cpar m stream}")
     | _, _ => ((), "bad-op")
   | _ => ((), "bad-op")
 
